@@ -13,6 +13,8 @@ def gen_save(w, r):
         return None
     if r.random() < w.cfg.get("p_write_fault", 0.08):
         # the disk fills up / fails in the middle of this save
+        if r.random() < 0.25:
+            return {"op": "save_fault", "ir": ir, "path": r.choice(PATHS), "fail_after": 0, "devfull": True}
         prev = w.disk.files.get(w.saved_as.get(ir, ""), b"")
         k = r.choice([r.randrange(0, 8), 8 + r.randrange(0, 24), r.randrange(0, max(len(prev), 64))])
         return {"op": "save_fault", "ir": ir, "path": r.choice(PATHS), "fail_after": k, "errno": r.choice(["ENOSPC", "EIO"])}
